@@ -413,6 +413,10 @@ OPTIONS:
 	if intf.TimestampResolution == 0 {
 		intf.TimestampResolution = 6
 	}
+	// the number of units per second has to fit 64 bit (2^63, 10^19); larger exponents would wrap the divisor (to 0 from 2^64 / 10^64 on)
+	if exp := intf.TimestampResolution.Exponent(); (intf.TimestampResolution.Binary() && exp > 63) || (!intf.TimestampResolution.Binary() && exp > 19) {
+		return fmt.Errorf("pcapng: unsupported timestamp resolution %#x", uint8(intf.TimestampResolution))
+	}
 
 	//parse options
 	if intf.TimestampResolution.Binary() {
